@@ -14,6 +14,7 @@ pub mod c07;
 pub mod c08;
 pub mod c09;
 pub mod c10;
+pub mod c11;
 pub mod c12;
 pub mod c13;
 pub mod c14;
@@ -41,6 +42,7 @@ pub fn lookup(id: &str) -> Option<Entry> {
         "C08" => Entry { id: "C08", run: c08::run, replay: c08::replay },
         "C09" => Entry { id: "C09", run: c09::run, replay: c09::replay },
         "C10" => Entry { id: "C10", run: c10::run, replay: c10::replay },
+        "C11" => Entry { id: "C11", run: c11::run, replay: c11::replay },
         "C12" => Entry { id: "C12", run: c12::run, replay: c12::replay },
         "C13" => Entry { id: "C13", run: c13::run, replay: c13::replay },
         "C14" => Entry { id: "C14", run: c14::run, replay: c14::replay },
